@@ -92,11 +92,7 @@ def run(run, rng):
                        'OMEN levels with more than 100000 strings are not decided (counted inconclusive)']
     for i in range(N[run.tier]):
         case = gen_case(rng)
-        try:
-            with timebox(90):
-                check_case(run, case)
-        except CaseTimeout:
-            run.inconc('case watchdog')
+        run.guard(case, check_case, seconds=90)
 
 def replay(run, case):
     check_case(run, case['case'])
